@@ -273,6 +273,10 @@ class SSHConfig:
                     # in self._config and update that value too
                     # when the extend() is being called.
                     options[key] = value[:] if value is not None else value
+                    if key == "identityfile":
+                        # Same rule as below: no duplicates, even when they
+                        # come from one and the same block.
+                        options[key] = list(dict.fromkeys(value))
                 elif key == "identityfile":
                     options[key].extend(
                         x for x in value if x not in options[key]
